@@ -56,11 +56,20 @@ func init() {
 			if m.replay != nil {
 				panic(engineError{"symbolic assume in replay"})
 			}
-			r, _ := m.solver.Check([]*Term{c}, nil)
+			if ev, ok := m.eval(c); ok && ev == 1 {
+				m.addPCKeepModel(c)
+				return nil
+			}
+			r, vals := m.solver.Check([]*Term{c}, m.vars)
 			if r == "unsat" {
 				m.endPath("infeasible")
 			}
-			m.addPC(c)
+			m.addPCKeepModel(c)
+			if r == "sat" {
+				m.setModel(vals)
+			} else {
+				m.dropModel()
+			}
 			return nil
 		},
 		"vfAssert": func(fr *frame, a []value) value {
